@@ -223,7 +223,7 @@ def check_case(case, rec=None, compiled=None):
                             raise Violation("C03/foreign/%s" % what, "%s reads %s bytes (e.g. address %d of region %s) last written by operation %s as a different tensor than the operand (%d byte(s))" % (
                                 where(), what, int(idx[j]), fm["region"], infos.get(w_op), bad.size), case, tags_c)
                 # oracle 3: rows
-                if what == "ifm" and box and full and f.get("upscale", 0) == 0 and c.kind != "elementwise":
+                if what == "ifm" and box and full and f.get("upscale", 0) == 0 and c.kind != "elementwise" and lab.get("padding") != "TILE":  # TILE: edges replicated through tiles, rows shift
                     y0 = box[0][1]
                     rows_expected = (y0 + np.arange(shape[0]))[:, None, None] + np.zeros(addr.shape, np.int64)
                     rows_expected = np.repeat(rows_expected.reshape(-1), esz)
